@@ -1793,9 +1793,24 @@ class Engine:
     return ov
 
   def process_hints(self, st, clauses, overlay, label, line):
-    """Proof hints (like Dafny `assert`): each is an obligation, then an assumption for what follows."""
+    """Proof hints (like Dafny `assert`): each is an obligation, then an assumption for what follows.
+    `begin_scope` ... `end_scope` (Dafny's `assert G by { ... }`): the facts established inside the scope are dropped at
+    its end except the LAST hint of the scope (dropping derived hypotheses is always sound; it keeps later queries
+    small)."""
+    scopes = []
+    last_goal = None
     for cl in clauses:
       if not cl.serves(self.prop):
+        continue
+      if cl.text == "begin_scope":
+        scopes.append(len(st.pc))
+        last_goal = None
+        continue
+      if cl.text == "end_scope":
+        n0 = scopes.pop()
+        del st.pc[n0:]
+        if last_goal is not None:
+          st.assume(last_goal)
         continue
       fr = Frame(dict(overlay), st.frame, st.frame.module, fname=st.frame.fname)
       st.frames.append(fr)
@@ -1838,9 +1853,11 @@ class Engine:
         self.emit(st, "hint", f"{label}/hint:{cl.text}", g_raw, clause=cl.text, line=line, props=cl.props,
                   only_hyps=list(prem_raw) + theory)
         st.assume(g)
+        last_goal = g
         continue
       self.emit(st, "hint", f"{label}/hint:{cl.text}", g, clause=cl.text, line=line, props=cl.props)
       st.assume(g)
+      last_goal = g
 
   def _is_concrete_while(self, s, st):
     return False
